@@ -199,3 +199,28 @@ Definition C08_sched_all_ready_same : Prop :=
     crun_g true (hub_push first kept) (cinit h0 script reqs) sched = crun true first kept (cinit h0 script reqs) sched /\
     (h_ready h0 = true ->
      crun_g true (hp_all first kept) (cinit h0 script reqs) sched = crun true first kept (cinit h0 script reqs) sched).
+
+(* ================================================================ 3. for EVERY event production function
+   (the form in which the statements are proved; sections 1 and 2 are instances) *)
+
+Definition C08_gen_exactly_once : Prop := forall hp : hprod, C08_exactly_once_g hp.
+Definition C08_gen_refused : Prop := forall hp : hprod, C08_refused_g hp.
+Definition C08_gen_isolation_hub : Prop := forall hp : hprod, C08_isolation_hub_g hp.
+Definition C08_gen_isolation_subs : Prop := forall hp : hprod, C08_isolation_subs_g hp.
+Definition C08_gen_lone : Prop := forall hp : hprod, C08_lone_g hp.
+Definition C08_gen_registration_atomic : Prop := forall hp : hprod, C08_registration_atomic_g hp.
+Definition C08_gen_serial_hub : Prop := forall hp : hprod, C08_serial_hub_g hp.
+Definition C08_gen_serial_lone : Prop := forall hp : hprod, C08_serial_lone_g hp.
+Definition C08_gen_serial_exactly_once : Prop := forall hp : hprod, C08_serial_exactly_once_g hp.
+Definition C08_gen_serial_isolation : Prop := forall hp : hprod, C08_serial_isolation_g hp.
+Definition C08_gen_seq_embeds : Prop := forall hp : hprod, C08_seq_embeds_g hp.
+Definition C08_gen_sched_serializable : Prop := forall hp : hprod, C08_sched_serializable_g hp.
+Definition C08_gen_sched_mutual_exclusion : Prop := forall hp : hprod, C08_sched_mutual_exclusion_g hp.
+Definition C08_gen_sched_burst_append_atomic : Prop := forall hp : hprod, C08_sched_burst_append_atomic_g hp.
+Definition C08_gen_sched_no_lost_registration : Prop := forall hp : hprod, C08_sched_no_lost_registration_g hp.
+Definition C08_gen_sched_registration_atomic : Prop := forall hp : hprod, C08_sched_registration_atomic_g hp.
+Definition C08_gen_sched_exactly_once : Prop := forall hp : hprod, C08_sched_exactly_once_g hp.
+Definition C08_gen_sched_isolation : Prop := forall hp : hprod, C08_sched_isolation_g hp.
+Definition C08_gen_sched_hub_unaffected : Prop := forall hp : hprod, C08_sched_hub_unaffected_g hp.
+Definition C08_gen_sched_complete_delivery : Prop := forall hp : hprod, C08_sched_complete_delivery_g hp.
+Definition C08_gen_sched_no_deadlock : Prop := forall hp : hprod, C08_sched_no_deadlock_g hp.
